@@ -154,9 +154,20 @@ func readAllSafe(r io.Reader, bufSize int, limit int) (out []byte, err error, pa
 			panicked = p
 		}
 	}()
+	if limit <= 0 {
+		limit = 256 << 20 // no content of any check comes near; a decoder that never stops must not exhaust memory
+	}
 	buf := make([]byte, bufSize)
+	idle := 0
 	for {
 		n, e := r.Read(buf)
+		if n == 0 && e == nil {
+			if idle++; idle > 100000 {
+				return out, fmt.Errorf("reader makes no progress: 100000 reads returned (0, nil)"), nil
+			}
+		} else {
+			idle = 0
+		}
 		if n > len(buf) || n < 0 {
 			return out, fmt.Errorf("read returned n=%d for len(p)=%d", n, len(buf)), nil
 		}
